@@ -233,7 +233,7 @@ def build_in_process(root: str, sources: list[tuple[str, str]], opts_kw: dict[st
         return _make_store_proxy(orig_create(options, parallel_worker), ctl)
 
     B.create_metastore = create  # type: ignore[assignment]
-    user = set(ctl["user_mods"])
+    user = set(ctl["user_mods"]) if ctl["user_mods"] is not None else None
     orig_fss = getattr(B, "_verif_orig_find_stale_sccs", None) or B.find_stale_sccs
     B._verif_orig_find_stale_sccs = orig_fss  # type: ignore[attr-defined]
 
@@ -243,20 +243,34 @@ def build_in_process(root: str, sources: list[tuple[str, str]], opts_kw: dict[st
             for kind, lst in (("fresh", fresh), ("stale", stale)):
                 for s in lst:
                     for m in sorted(s.mod_ids):
-                        if m in user:
+                        if user is None or m in user:
                             ctl["trace"].append({"ev": kind, "mod": m})
         return stale, fresh
 
     B.find_stale_sccs = fss  # type: ignore[assignment]
     try:
         cli_args = opts_kw.pop("cli_args", None)
+        nosrc = opts_kw.pop("cli_args_nosrc", None)
+        if nosrc is not None:
+            from mypy.main import process_options as _po
+
+            _, _o = _po(list(nosrc), require_targets=False)
+            _base = make_options(root, **{k: v for k, v in opts_kw.items() if k in ("cache_dir", "store", "fmt")})
+            for k in ("use_builtins_fixtures", "incremental", "cache_dir", "sqlite_cache", "fixed_format_cache", "show_traceback"):
+                setattr(_o, k, getattr(_base, k))
+            if not any(x.startswith("--python-version") for x in nosrc):
+                _o.python_version = (3, 12)
+            _o.hide_error_codes = "--show-error-codes" not in nosrc
+            opts_kw = {"_prebuilt": _o}
         alt_lib = opts_kw.pop("alt_lib", root)
-        if cli_args is not None:
+        if "_prebuilt" in opts_kw:
+            options = opts_kw["_prebuilt"]
+        elif cli_args is not None:
             # options built by the real command-line / config-file machinery (main.process_options),
             # then pointed at the fixtures and the cache directory of this harness
             from mypy.main import process_options
 
-            _, options = process_options(list(cli_args) + [p for p, _ in sources], fscache=None)
+            _, options = process_options(list(cli_args) + [p for p, _ in sources if p], fscache=None)
             base = make_options(root, **opts_kw)
             for k in ("use_builtins_fixtures", "incremental", "cache_dir", "sqlite_cache", "fixed_format_cache",
                       "show_traceback", "python_version"):
@@ -269,8 +283,8 @@ def build_in_process(root: str, sources: list[tuple[str, str]], opts_kw: dict[st
             res = B.build(srcs, options, alt_lib_path=alt_lib)
             msgs = res.errors
             out["status"] = 1 if any(": error:" in m for m in msgs) else 0
-            out["rechecked"] = sorted(set(res.manager.rechecked_modules) & user)
-            out["stale"] = sorted(set(res.manager.stale_modules) & user)
+            out["rechecked"] = sorted(set(res.manager.rechecked_modules) & user) if user is not None else sorted(res.manager.rechecked_modules)
+            out["stale"] = sorted(set(res.manager.stale_modules) & user) if user is not None else sorted(res.manager.stale_modules)
         except CompileError as e:
             msgs = e.messages
             out["status"] = 2
@@ -286,7 +300,7 @@ def build_in_process(root: str, sources: list[tuple[str, str]], opts_kw: dict[st
 def new_ctl(tick: int = 0, record: bool = True, kill_after: int | None = None, fail_writes: Any = (),
             user_mods: list[str] | None = None) -> dict[str, Any]:
     return {"nops": 0, "nwrites": 0, "tick": tick, "trace": [], "record": record, "kill_after": kill_after,
-            "fail_writes": set(fail_writes), "user_mods": user_mods or ["a", "b", "c", "d", "e", "p", "p.x", "p.y"],
+            "fail_writes": set(fail_writes), "user_mods": user_mods if user_mods is not None else ["a", "b", "c", "d", "e", "p", "p.x", "p.y"],
             "on_kill": lambda: None}
 
 
@@ -333,12 +347,12 @@ def preload() -> None:
 def run_build(root: str, *, cache_dir: str | None, store: str = "fs", fmt: str = "ff", tick: int = 0,
               kill_after: int | None = None, fail_writes: set[int] | frozenset[int] = frozenset(),
               sources: list[tuple[str, str]] | None = None, record: bool = True,
-              user_mods: list[str] | None = None, extra_opts: dict[str, Any] | None = None) -> dict[str, Any]:
+              user_mods: Any = None, extra_opts: dict[str, Any] | None = None) -> dict[str, Any]:
     """One build in a forked child. Returns dict(messages, status, trace, tick, nops, nwrites, killed)."""
     sources = sources or [("a.py", "a")]
     ctl: dict[str, Any] = {"nops": 0, "nwrites": 0, "tick": tick, "trace": [], "record": record,
                            "kill_after": kill_after, "fail_writes": set(fail_writes),
-                           "user_mods": user_mods or ["a", "b", "c", "d", "p", "p.x", "p.y"]}
+                           "user_mods": None if user_mods == "*" else (user_mods or ["a", "b", "c", "d", "p", "p.x", "p.y"])}
     opts_kw = dict(cache_dir=cache_dir, store=store, fmt=fmt, **(extra_opts or {}))
     rfd, wfd = os.pipe()
     sys.stdout.flush(); sys.stderr.flush()
